@@ -55,7 +55,89 @@ type c09World struct {
 
 var ppKinds = []string{"before-inst", "after-inst", "properties", "early", "before", "after"}
 
+// misfit: a post-processor replaces a component by an object of another type; a point that declares the
+// component's concrete type (by name or by type, single or slice) can then not be satisfied by it. Run
+// must not panic: a required point fails the start with an error and no runner runs, an optional point
+// stays at its zero value.
+func (p c09) misfit(c *core.Ctx) {
+	g := world.NewG(c.Rng)
+	tt := []int{0, 1, 3, 6}[c.Rng.Intn(4)] // eager plain types implementing IA
+	target := g.AddNode(tt, g.FreshName(0))
+	holder := g.AddNode(world.TypesEagerPlain[c.Rng.Intn(len(world.TypesEagerPlain))], g.FreshName(1))
+	runner := g.AddNode(world.TypesRunner[c.Rng.Intn(len(world.TypesRunner))], g.FreshName(2))
+	_ = runner
+	optional := c.Rng.Intn(2) == 0
+	args := ""
+	if optional {
+		args = ",required=false"
+	}
+	slot := fmt.Sprintf("P%02d", tt)
+	kind := c.Rng.Intn(3)
+	switch kind {
+	case 0: // by name, concrete pointer type
+		g.SetTag(holder, slot, "wire", g.Sc.Nodes[target].DisplayName()+args)
+	case 1: // by type, concrete pointer type
+		g.SetTag(holder, slot, "wire", args)
+	default: // slice of the concrete pointer type
+		slot = fmt.Sprintf("SP%02d", tt)
+		if world.SlotByName(slot).Name == "" {
+			slot = fmt.Sprintf("P%02d", tt)
+			g.SetTag(holder, slot, "wire", args)
+		} else {
+			g.SetTag(holder, slot, "wire", args)
+		}
+	}
+	// an interface-typed point at the same component is fine with the wrapper
+	other := g.AddNode(world.TypesEagerPlain[c.Rng.Intn(len(world.TypesEagerPlain))], g.FreshName(3))
+	g.SetTag(other, "IA0", "wire", g.Sc.Nodes[target].DisplayName())
+	g.ShuffleOrders()
+	plan := map[string]world.SubPlan{g.Sc.Nodes[target].DisplayName(): []world.SubPlan{{After: true}, {Before: true}, {Early: true, After: true, Same: true}}[c.Rng.Intn(3)]}
+	r := world.Start(g.Sc, world.Options{Extra: []any{world.NewSubstituter(plan)}})
+	c.Count("starts", 1)
+	c.Count("misfit_starts", 1)
+	detail := failDetail(g.Sc, r, map[string]any{"plan": plan, "point": slot, "optional": optional})
+	if abnormal(r.Outcome()) {
+		c.Fail("", fmt.Sprintf("a point of concrete type %s cannot hold the wrapper a post-processor put in the component's place: %s", slot, core.Short(r.OutcomeDetail(), 300)), detail)
+		return
+	}
+	runs := countEvents(r, "run")
+	if r.Outcome() == "error" {
+		if runs != 0 {
+			c.Fail("", fmt.Sprintf("Run returned an error but %d runner(s) were invoked", runs), detail)
+			return
+		}
+	} else {
+		refs, _ := r.SlotRefs(r.Nodes[holder], slot)
+		for _, ref := range refs {
+			if !ref.Nil && ref.Wrap != nil {
+				c.Fail("", "a wrapper of another type was stored in a field of the concrete type", detail)
+				return
+			}
+		}
+		if !optional {
+			// a required point may legitimately be satisfied when the holder received the component before
+			// it was replaced (then the start fails later with the stale-version error) - a successful start
+			// with a required concrete point needs a value in it
+			empty := len(refs) == 0
+			for _, ref := range refs {
+				if ref.Nil {
+					empty = true
+				}
+			}
+			if empty {
+				c.Fail("", "start succeeded although the required point of concrete type is empty", detail)
+				return
+			}
+		}
+	}
+	c.Nontrivial(fmt.Sprintf("misfit|%d|%v|%v|%s", kind, optional, plan, r.Outcome()))
+}
+
 func (p c09) Run(c *core.Ctx) {
+	if c.Index%5 == 4 {
+		p.misfit(c)
+		return
+	}
 	sc := RandomGraph(c.Rng, GraphOpts{MinN: 2, MaxN: 9, Types: world.TypesAll, PCycle: 0.6, Chords: 2,
 		ByTypeSlice: 0.15, QualSlice: 0.15, ByTypeUniq: 0.2, PUnnamed: 0.3})
 	w := &c09World{sc: sc, npp: 1 + c.Rng.Intn(2), nld: 1 + c.Rng.Intn(2), optComp: map[int][]string{}, optCfg: map[int][]string{}}
